@@ -119,7 +119,9 @@ func btcGenesis(v int) ([]byte, error) {
 	return append(buf.Bytes(), ht[:]...), nil
 }
 
-func ontGenesis(v int) ([]byte, error) {
+func ontGenesis(v int) ([]byte, error) { return ontGenesisPayload(v, true) }
+
+func ontGenesisPayload(v int, withConfig bool) ([]byte, error) {
 	type peer struct {
 		Index uint32 `json:"index"`
 		ID    string `json:"id"`
@@ -137,6 +139,9 @@ func ontGenesis(v int) ([]byte, error) {
 		"new_chain_config": map[string]interface{}{"version": 1, "view": 1 + v, "n": len(peers), "c": (len(peers) - 1) / 3,
 			"block_msg_delay": 10000, "hash_msg_delay": 10000, "peer_handshake_timeout": 10000, "peers": peers,
 			"pos_table": []uint32{1, 2, 3}, "MaxBlockChangeView": 10000},
+	}
+	if !withConfig {
+		payload["new_chain_config"] = nil
 	}
 	pb, err := json.Marshal(payload)
 	if err != nil {
